@@ -6,6 +6,10 @@ BASELINE = json.load(open('/root/.vp/BASELINE.json'))['cmd'] if os.path.exists('
 
 # id -> (category, technique, text, note)
 CHECKS = {
+ "C06": ("model_checking",
+   "explicit-state BFS over directory-writer histories with canonical-state dedup (invariant: Validate==nil) plus exhaustive single-edit tamper neighbourhood of every small reached state, judged by a reference materiality model",
+   "BFS to depth 3 (thorough 4) over the real writers (WritePlan x 6 formatters, WriteCheckpoint, CopyFiles; MemDir and LocalDir) checks that every reachable directory validates; for every small reached state and 8 hand-built ones (sum-ignored files, awkward names) every single edit - each byte of each file and of atlas.sum substituted/deleted/inserted, file add/remove/rename/swap/move-tail, sum line operations - is applied and the real Validate must fail with a checksum error exactly when the reference model says the edit is material.",
+   "CLI writers (migrate new/hash/import/diff) are covered by the CLI-driven checks; bodies of sum-ignored files and whitespace-only sum edits are immaterial by design and not judged."),
  "C09": ("fault_enumeration",
    "stateless deviation-bounded DFS over fault/crash choice points on the real migrate.Executor, judged by a reference executor model",
    "Every placement of up to 2 (thorough: 3) faults - failing statement, failing revision write, simulated process death before/after either - over all 39 directory shapes (1-3 files x 1-3 statements) is executed on the real Executor with clean re-runs; order, no-skip, at-most-once-except-lost-bookkeeping and 'history never ahead of reality' are checked at every write and at the end.",
